@@ -309,8 +309,49 @@ var equalKinds = []string{"identity", "permute-inputs", "permute-outputs", "perm
 var differKinds = []string{
 	"single:label-name", "single:label-pkg", "single:command", "single:content", "single:add-input", "single:remove-input", "single:rename-input",
 	"single:output", "single:dep", "single:fp-value", "single:fp-key", "single:platform",
-	"shift:file-boundary", "shift:file-boundary-header", "shift:present-absent", "shift:list-element-inputs", "shift:label-command", "shift:command-inputs",
+	"shift:file-boundary", "shift:file-boundary-header", "shift:file-boundary-trailer", "shift:present-absent", "shift:list-element-inputs", "shift:label-command", "shift:command-inputs",
 	"shift:inputs-outputs", "shift:outputs-deps", "shift:deps-fingerprint", "shift:fingerprint-platform", "shift:fp-key-value", "shift:fp-list-element",
+}
+
+var trailerHeaders = []func(string) string{
+	func(p string) string { return fmt.Sprintf("%d:%s", len(p), p) },
+	func(p string) string { return p },
+	func(p string) string { return p + "\x00" },
+	func(p string) string { return "" },
+}
+
+type trailerSol struct {
+	xp, u, y1 int
+	y2        string
+}
+
+var trailerCache = map[string][]trailerSol{}
+
+// trailerSolutions: all small solutions of the length equation of "shift:file-boundary-trailer" (pure function, memoised).
+func trailerSolutions(n2 string, style int) []trailerSol {
+	key := fmt.Sprintf("%s/%d", n2, style)
+	if s, ok := trailerCache[key]; ok {
+		return s
+	}
+	h := len(trailerHeaders[style](n2))
+	digits := func(n int) int { return len(fmt.Sprint(n)) }
+	var sols []trailerSol
+	for xp := 0; xp <= 3; xp++ {
+		for u := 0; u <= 40; u++ {
+			xLen := xp + digits(xp) + 1 + h + u
+			for y1 := 0; y1 <= 12; y1++ {
+				yPrimeLen := u + digits(xLen) + 1 + h + y1
+				for d := 1; d <= 99; d++ {
+					y2 := fmt.Sprint(d)
+					if fmt.Sprint(yPrimeLen) == y2+fmt.Sprint(y1+len(y2)) {
+						sols = append(sols, trailerSol{xp, u, y1, y2})
+					}
+				}
+			}
+		}
+	}
+	trailerCache[key] = sols
+	return sols
 }
 
 // derive builds B from A for the named kind; ok=false when A does not admit it
@@ -480,6 +521,30 @@ func derive(t *rapid.T, a *State, kind string) (State, bool) {
 		a.Files = map[string]string{n1: x + hdr, n2: y}
 		b = a.clone()
 		b.Files = map[string]string{n1: x, n2: hdr + y}
+	case "shift:file-boundary-trailer":
+		// the same idea for a framing that writes the size AFTER the content (header(path) content size ':'), which is
+		// not injective: digits at the end of a content merge into the trailer. Solve
+		//   header(n1) X  T(X)  header(n2) Y  T(Y)  ==  header(n1) X' T(X') header(n2) Y' T(Y')
+		// with X = X' T(X') header(n2) U,  Y = Y1 Y2,  Y' = U T(X) header(n2) Y1,  str(|Y'|) = Y2 str(|Y|).
+		n1, n2 := "a", "b"
+		if rapid.Bool().Draw(t, "longnames") {
+			n1, n2 = "src/a.txt", "src/b.txt"
+		}
+		style := rapid.IntRange(0, 3).Draw(t, "hdrstyle")
+		hdrOf := trailerHeaders[style]
+		trailer := func(c string) string { return fmt.Sprintf("%d:", len(c)) }
+		sols := trailerSolutions(n2, style)
+		if len(sols) == 0 {
+			return b, false
+		}
+		so := sols[rapid.IntRange(0, len(sols)-1).Draw(t, "solution")]
+		xPrime := strings.Repeat("c", so.xp)
+		uu, y1 := strings.Repeat("x", so.u), strings.Repeat("y", so.y1)
+		x := xPrime + trailer(xPrime) + hdrOf(n2) + uu
+		a.Inputs = []string{n1, n2}
+		a.Files = map[string]string{n1: x, n2: y1 + so.y2}
+		b = a.clone()
+		b.Files = map[string]string{n1: xPrime, n2: uu + trailer(x) + hdrOf(n2) + y1}
 	case "shift:present-absent":
 		// content moves from a present declared input to an absent declared input
 		a.Inputs = []string{"a", "b"}
